@@ -204,3 +204,34 @@ func (g *gen) twin() {
 		}
 	}
 }
+
+// nestedGroupCalls: calls of every plugin of one nested prefix group
+// (overrides that make one prefix a proper prefix of another), one after the
+// other in one file and in a drawn order: which plugin handled the previous
+// call must not matter for the next one.
+func (g *gen) nestedGroupCalls() {
+	w, t := g.w, g.t
+	gi := t.Intn(len(nestedPrefixGroups))
+	grp := nestedPrefixGroups[gi]
+	file := t.Intn(w.NFiles)
+	rot := t.Intn(len(grp))
+	saved := g.p.Plugins
+	defer func() { g.p.Plugins = saved }()
+	n := 0
+	for k := range grp {
+		pl := grp[(k+rot)%len(grp)][0]
+		g.p.Plugins = []string{pl}
+		for try := 0; try < 3; try++ {
+			if c := g.genCall(""); c != nil {
+				c.File = file
+				c.Test = false
+				w.Calls = append(w.Calls, c)
+				n++
+				break
+			}
+		}
+	}
+	if n >= 2 {
+		w.NestedGroup = gi + 1
+	}
+}
